@@ -78,6 +78,7 @@ struct Thr {
   SpinEnt spin[SPINSET];
   int nspin;
   uint64_t spin_wver;
+  uint64_t own_writes;
   int fresh;
   // history
   uint64_t hist;
@@ -333,6 +334,11 @@ static int choose_alt(int kind, int nalts, uint64_t costmask) {
   if (nalts <= 1) return 0;
   if (nalts > 64) nalts = 64;
   uint64_t h = state_hash();
+  // An environment choice (waiter pick, weak-CAS failure, stale read, data choice) directly follows the
+  // scheduling choice of the same operation with no state change in between; the two choice points must
+  // not share a hash or the explorer's visited-state pruning would cut the second one (and everything
+  // after it) off.
+  if (kind != MC_K_NONE) h = mix3(h, 0xc401ce, (uint64_t)kind);
   uint32_t idx = g.nrecs;
   int c = 0;
   const McPrefix* p = &g.cfg.prefix;
@@ -788,14 +794,16 @@ static void post_impl(Thr* me, int kind, const volatile void* addr, unsigned siz
     me->hist = mix3(me->hist, 0x57, L->name);
     me->nops++;
     g.wver++;
+    me->own_writes++;
     wake_spinners();
-    me->nspin = 0;
     return;
   }
   me->nops++;
-  // non-mutating: spin rule
-  if (me->spin_wver != g.wver) {
-    me->spin_wver = g.wver;
+  // non-mutating: spin rule. The set of observations is reset only by writes of OTHER threads: a thread
+  // that keeps changing memory itself (e.g. a cursor fetch_add in a retry loop) while re-reading the same
+  // value of a word nobody else has touched is still waiting for somebody else.
+  if (me->spin_wver != g.wver - me->own_writes) {
+    me->spin_wver = g.wver - me->own_writes;
     me->nspin = 0;
   }
   for (int i = 0; i < me->nspin; i++)
